@@ -928,3 +928,33 @@ impl DnsService {
         })
     }
 }
+
+/// Verification hooks: thin wrappers exposing crate-private pieces of the DNS
+/// service (decoder, token bucket, cache, cookie validation).
+#[cfg(erbium_verif)]
+pub mod verif {
+    pub use super::bucket::{Clock, GenericTokenBucket};
+    pub use super::cache::verif::VerifCache;
+
+    pub fn parse(buf: &[u8]) -> Result<super::dnspkt::DNSPkt, String> {
+        super::parse::PktParser::new(buf).get_dns()
+    }
+
+    /// "good" | "bad" | "missing" for the cookie carried by `msg` under the two keys.
+    pub fn cookie_status(msg: &super::DnsMessage, key: &[u8], oldkey: &[u8]) -> &'static str {
+        match msg.validate_cookie_keys(key, oldkey) {
+            super::CookieStatus::Good => "good",
+            super::CookieStatus::Bad => "bad",
+            super::CookieStatus::Missing => "missing",
+        }
+    }
+
+    /// The server cookie this server issues to `msg`'s client for `client` under `key`.
+    pub fn server_cookie(msg: &super::DnsMessage, client: &[u8], key: &[u8]) -> Vec<u8> {
+        use hmac::Mac as _;
+        msg.calculate_cookie(client, key)
+            .finalize()
+            .into_bytes()
+            .to_vec()
+    }
+}
